@@ -214,7 +214,7 @@ func init() {
 }
 
 func c18Streams_(c *Ctx) {
-	per := c.N(40, 2000)
+	per := c.N(150, 6000)
 	dir, err := os.MkdirTemp("", "c18-")
 	if err != nil {
 		c.Info("skipped", err.Error())
@@ -278,7 +278,7 @@ func c18Streams_(c *Ctx) {
 }
 
 func c18Memory(c *Ctx) {
-	per := c.N(60, 2000)
+	per := c.N(200, 8000)
 	idx := int64(0)
 	nodeKey := func(n *newick.Node) string { return fmt.Sprintf("%p", n) }
 	for i := 0; i < per; i++ {
@@ -473,7 +473,7 @@ func c19Shapes(c *Ctx) {
 }
 
 func c19Random(c *Ctx) {
-	n := c.N(400, 8000)
+	n := c.N(800, 30000)
 	for i := 0; i < n; i++ {
 		c.Case(int64(i), func(k *K) {
 			r := k.Rand()
